@@ -26,7 +26,10 @@ def write_mc_cfg(path, maxtop, maxnotes, maxops):
 
 def drive(ctx, bindir, name, histories, ops, mode, seed):
     path = ctx.path("trace_%s.ndjson" % name)
-    args = [path, str(histories), str(ops)] + ([mode] if mode else [])
+    if mode == "scenarios":
+        args = [path, "scenarios"]
+    else:
+        args = [path, str(histories), str(ops)] + ([mode] if mode else [])
     lib.run_bin(os.path.join(bindir, "c01_driver"), args, env_extra={"VERIF_SEED": str(seed)}, timeout=3000)
     return path
 
@@ -99,8 +102,9 @@ def run(ctx):
     lib.account_tlc(ctx, r)
 
     # (2) recorded executions of the real wallet, validated by TLC
-    plans = [("base", 12, 70, None), ("ironwood", 8, 70, "ironwood")] if ctx.quick() else \
-            [("base%d" % i, 30, 90, None) for i in range(4)] + [("ironwood%d" % i, 30, 90, "ironwood") for i in range(3)]
+    plans = [("scenarios", 0, 0, "scenarios")]
+    plans += [("base", 12, 70, None), ("ironwood", 8, 70, "ironwood")] if ctx.quick() else \
+        [("base%d" % i, 30, 90, None) for i in range(4)] + [("ironwood%d" % i, 30, 90, "ironwood") for i in range(3)]
     totals = {}
     for i, (name, hist, ops, mode) in enumerate(plans):
         path = drive(ctx, bindir, name, hist, ops, mode, ctx.seed * 100 + i)
